@@ -47,7 +47,14 @@ def generate(seed, tier):
         peer = rng.randrange(4)
         if bulk_rate and rng.random() < bulk_rate:
             y = rng.random()
-            if y < 0.6:
+            if y < 0.08:
+                # a longer stretch of bulk download (one announcement, many requests), usually followed by a rejected relay
+                ops.append({'op': 'bulk_burst', 'n': rng.choice([3, 20, 99, 100, 101, 120] + ([500, 1001] if tier == 'thorough' else [])),
+                            'peer': peer, 'miner': rng.randrange(12)})
+                if rng.random() < 0.8:
+                    ops.append({'op': 'forge', 'kind': rng.choice(['reward_plus_one', 'sig_other_key', 'ts_equal_parent', 'ev_sample']), 'tip': -1,
+                                'a': rng.randrange(1000), 'b': rng.randrange(1000), 'dt': 1, 'clock': 0, 'peer': rng.randrange(4), 'overlap': False})
+            elif y < 0.6:
                 m = LC.gen_mine(rng, latest_bias=0.85, max_txs=2)
                 m.update({'op': 'bulk', 'peer': peer, 'clock': 0})
                 ops.append(m)
@@ -463,6 +470,43 @@ def execute(script):
                 res.bump('bulk_deliveries')
                 if not settle_and_check():
                     break
+            elif kind == 'bulk_burst':
+                if not settle_and_check():
+                    break
+                rb = sim.parent_of(-1)
+                c = w.conn(op.get('peer', 0))
+                if c is None:
+                    continue
+                n_b = op.get('n', 3)
+                if rb.ts + n_b + 2 > w.node_clock() + 15:
+                    continue
+                view = W.view_at(sim.cs, rb.id)
+                made = []
+                ts = rb.ts
+                for j in range(n_b):
+                    ts += 1
+                    b_ = W.roundtrip(W.mine_honest(view, [], W.key((op.get('miner', 0) + j) % 12), ts))
+                    made.append(b_)
+                    view = view.add_block_no_validation(b_)
+                serve = c.bot.b.get('serve')
+                if serve is None:
+                    serve = c.bot.b['serve'] = {'blocks': {}, 'chain': []}
+                for b_ in made:
+                    serve['blocks'][b_.hash()] = b_
+                serve['chain'] = [rb.id] + [b_.hash() for b_ in made]      # follow-up requests for more inventory continue from here
+                for b_ in made:
+                    if not batch:
+                        mark['inst0'] = len(installs)
+                    batch.append({'block': b_, 'bid': rules.block_id(b_), 'label': 'bulk-download-burst', 'expect': 'context',
+                                  't_send': w.node_clock(), 'route': 'bulk', 'known_at_send': False, 'conn': c,
+                                  'parent_settled': True, 'counts_before': {}, 'greeted_before': []})
+                c.send(M.InventoryMessage([M.InventoryItem(M.DATA_BLOCK, b_.hash()) for b_ in made[:500]]))
+                res.bump('bulk_deliveries', n_b)
+                res.bump('probe:bulk_burst_of_%s_blocks' % ('100_or_more' if n_b >= 100 else 'fewer_than_100'))
+                w.settle(3000 + 60 * n_b)
+                if not settle_and_check():
+                    break
+                serve['chain'] = []
             elif kind == 'redeliver_dropped':
                 if not settle_and_check():
                     break
